@@ -348,12 +348,14 @@ PROPS["C02"] = {
 
 # ---------------------------------------------------------------- C14
 PROPS["C14"] = {
-    "level_text": "One inductive step of the real reorder buffer (ProcessPacket2 / reorder) from EVERY pre-state satisfying the representation invariant: last delivered sequence number, packet sequence number and all counters are free 16/64-bit variables (so every wrap position is covered at once), every occupancy pattern of the buffer and every restart-counter value is explored, for buffer sizes 1,2,4 (quick) and 8 (thorough). The post-state and the returned packets are compared with a reference receiver written in the harness: strictly increasing delivery modulo 2^16, no duplicates, displaced packets inside the window are buffered not dropped, lost = skipped sequence numbers, counters, cycle counting, restart after B+1 old packets, invariant re-established. Because the invariant is inductive, the step result covers arrival histories of any length. Reliable mode and the receiver-report assembly (extended highest sequence number, 24-bit clamp, fraction) are separate obligations over all 16/32/64-bit values.",
+    "level_text": "One inductive step of the real reorder buffer (ProcessPacket2 / reorder) from EVERY pre-state satisfying the representation invariant: last delivered sequence number, packet sequence number and all counters are free 16/64-bit variables (so every wrap position is covered at once), every occupancy pattern of the buffer and every restart-counter value is explored, for buffer sizes 1,2,4 (quick) and 8 (thorough). The post-state and the returned packets are compared with a reference receiver written in the harness: strictly increasing delivery modulo 2^16, no duplicates, displaced packets inside the window are buffered not dropped, lost = skipped sequence numbers, counters, cycle counting, restart after B+1 old packets, invariant re-established. Because the invariant is inductive, the step result covers arrival histories of any length. A history harness through the public API only (K = 4/5 arbitrary packets within a quarter of the sequence space, B >= K so that no restart triggers, and reliable mode): strictly increasing delivery, no duplicates, losses = skipped numbers, Stats agree - it keeps working when the receiver's internals are refactored. Reliable mode and the receiver-report assembly (extended highest sequence number, 24-bit clamp, fraction) are separate obligations over all 16/32/64-bit values.",
     "level_note": "Trusted: the engine's SSA semantics (native replay of every counterexample, must-fail twins), the representation invariant written in the harness (a too-weak invariant shows up as a counterexample that does not replay through the public API). Not covered: jitter (floating point, not in the property), the RTCP ticker goroutine, buffer sizes above 8.",
     "runs": [
         R("reorder-B%d" % b, "pkg/rtpreceiver", "pkg/rtpreceiver", ["ZzC14Step"], params={"B": b}, flags={"workers": 8},
           tiers=("quick", "thorough") if b <= 4 else ("thorough",)) for b in (1, 2, 4, 8)
-    ] + [R("reliable+report", "pkg/rtpreceiver", "pkg/rtpreceiver", ["ZzC14Reliable", "ZzC14Report"], flags={"workers": 4})],
+    ] + [R("reliable+report", "pkg/rtpreceiver", "pkg/rtpreceiver", ["ZzC14Reliable", "ZzC14Report"], flags={"workers": 4}),
+         R("history-unreliable", "pkg/rtpreceiver", "pkg/rtpreceiver", ["ZzC14Hist"], params={"GOSTUB": 1}, flags={"workers": 6}, quick_params={"K": 4, "B": 4}, thorough_params={"K": 5, "B": 8}),
+         R("history-reliable", "pkg/rtpreceiver", "pkg/rtpreceiver", ["ZzC14Hist"], params={"GOSTUB": 1, "RELIABLE": 1}, flags={"workers": 4}, quick_params={"K": 3}, thorough_params={"K": 4})],
     "parallel": 3,
     "assumptions": ["counters below 2^62 (no 64-bit counter overflow within a session)"],
     "outside_claim": ["jitter computation", "report ticker goroutine", "buffer sizes > 8", "multi-step histories are covered through the inductive invariant, not enumerated"],
